@@ -46,6 +46,7 @@ pub struct NHistory {
     delivered_to_server: HashSet<(SocketAddr, Vec<u8>)>,
     token_seen_from: HashMap<u64, HashSet<SocketAddr>>, // token -> addresses its request was presented from
     token_sessions: HashMap<u64, u32>,  // token -> sessions established with it
+    token_bound: HashMap<u64, SocketAddr>, // token -> the address its MAC was first recorded for by the server
     owner_crafted: bool,                 // the datagram being delivered was sealed by the owner of the token (op 155)
     delivered_to_client: HashMap<u64, HashSet<Vec<u8>>>,
 }
@@ -104,6 +105,7 @@ impl NHistory {
             delivered_to_server: HashSet::new(),
             token_seen_from: HashMap::new(),
             token_sessions: HashMap::new(),
+            token_bound: HashMap::new(),
             owner_crafted: false,
             delivered_to_client: HashMap::new(),
         }
@@ -234,6 +236,7 @@ impl NHistory {
             }
         };
         let connected_before = s.verif_clients().iter().any(|c| c.addr == from);
+        let id_connected_before: Vec<u64> = s.verif_clients().iter().map(|c| c.client_id).collect();
         // authentic for the session that lives at `from`: opens under that session's client-to-server key
         let session: Option<(u64, Vec<u8>)> = s.verif_clients().iter().chain(s.verif_pending().iter()).find(|c| c.addr == from).map(|c| (c.client_id, c.user_data.to_vec()));
         let session_key: Option<([u8; 32], u64)> = session.and_then(|(id, user)| self.tokens.values().find(|t| t.id == id && t.user == user).map(|t| (t.c2s, t.protocol)));
@@ -271,6 +274,10 @@ impl NHistory {
                 if let Some(t) = self.client_token.get(&k).and_then(|t| self.tokens.get(t).map(|ti| (*t, ti.clone()))) {
                     if t.1.valid_for_server && now_secs < t.1.expire {
                         self.valid_requests.push((from, t.0));
+                        // the server records the token's MAC for this address unless it stopped earlier (id or address connected)
+                        if !connected_before && !id_connected_before.contains(&t.1.id) {
+                            self.token_bound.entry(t.0).or_insert(from);
+                        }
                     }
                 }
             }
@@ -371,6 +378,11 @@ impl NHistory {
                     let toks: Vec<u64> = self.valid_requests.iter().filter(|(from, t)| *from == a && self.tokens.get(t).map(|ti| ti.id == id && ti.user == user).unwrap_or(false)).map(|(_, t)| *t).collect();
                     for t in toks.iter().collect::<HashSet<_>>() {
                         *self.token_sessions.entry(*t).or_insert(0) += 1;
+                    }
+                    // a token already used from a different address never produces a connection
+                    if !toks.is_empty() && toks.iter().all(|t| self.token_bound.get(t).map(|b| *b != a).unwrap_or(false)) {
+                        let class = if self.token_bound.len() > 2047 { " [class:token-entry-evicted]" } else { "" };
+                        self.violate("C05", format!("client id {} connected from {} with a connect token that the server had first accepted from {:?}{}", id, a, toks.iter().filter_map(|t| self.token_bound.get(t)).next(), class));
                     }
                     if !ok {
                         self.violate("C05", format!("client id {} reported connected from {} without a valid connect token request from that address carrying this id and user data", id, a));
